@@ -1298,6 +1298,13 @@ func checkMapReduce(c *Ctx, fn *ssa.Function, name string, rule string, joinOnly
 				guarded = true
 			}
 		}
+		if !guarded && len(closes) == 1 {
+			// the one close, as a plain statement of the transfer function itself and outside every loop: executed at
+			// most once per call (the first error peeled off the reduce loop closes it, the loop that follows does not)
+			if _, plain := cl.(*ssa.Call); plain && f == fn && !inLoop(cl) {
+				guarded = true
+			}
+		}
 		chk(false, guarded && len(closes) == 1, name+" cancel closed at most once", pos(cl), "close(cancel) guarded by the select-default idiom or deferred once", "cancel can be closed twice (panic) or without the guard")
 	}
 	// the parent waits for the workers before returning: WriteTo defers wg.Wait; others drain errCh closed after wg.Wait
